@@ -17,8 +17,8 @@ namespace ShootVerif.Merge
 
 def inside (d : Decl) (c : Comment) : Bool := d.pos ≤ c.pos && c.pos ≤ d.endp
 
-/-- doc comment: ends exactly one byte (the newline) before the declaration starts -/
-def isDoc (d : Decl) (c : Comment) : Bool := c.endp + 1 == d.pos
+/-- the declaration's doc comment, as the parser associated it -/
+def isDoc (d : Decl) (c : Comment) : Bool := d.docPos = some c.pos
 
 def own (d : Decl) (c : Comment) : Bool := inside d c || isDoc d c
 
@@ -42,33 +42,19 @@ def specOut : List File → Option Out
 
 /-! ## Regions -/
 
-/-- layout of generated sources (gofmt output of the four templates): a comment group that ends fewer
-    than 10 bytes before a declaration is that declaration's doc comment.  The templates only emit doc
-    comments, comments inside bodies and the file header, which is followed by `\n\npackage x\n\n`
-    (≥ 13 bytes) – so every generated file satisfies this. -/
-def layoutOK (f : File) : Bool :=
-  f.decls.all (fun d => d.isImport ||
-    f.comments.all (fun c => !(c.endp ≤ d.pos && d.pos - c.endp < 10) || isDoc d c))
+/-- go/parser invariant: a doc comment group ends before its declaration starts (`Doc` is the lead comment).
+    This is the only premise left for the doc-comment theorem; it says nothing about the templates' layout. -/
+def docBefore (f : File) : Bool :=
+  f.decls.all (fun d => f.comments.all (fun c => !isDoc d c || c.endp ≤ d.pos))
 
 /-- all files that contribute a declaration belong to the first file's package -/
 def samePkg : List File → Bool
   | [] => true
   | f :: fs => !pkgClash f.pkg (f :: fs)
 
-def WF (fs : List File) : Bool := fs.all layoutOK && samePkg fs
-
-/-- the layout condition fails only because a comment INSIDE one declaration ends fewer than 10 bytes before the
-    next declaration of the same file (`func (c *client) ShootRest() { /*noop*/ }` followed by `func init()` in
-    the output of `shoot rest`): the code then prints that comment a second time, in front of the next declaration -/
-def strayOnly (f : File) : Bool :=
-  f.decls.all (fun d => d.isImport ||
-    f.comments.all (fun c => !(c.endp ≤ d.pos && d.pos - c.endp < 10) || isDoc d c ||
-      f.decls.any (fun e => !e.isImport && inside e c)))
+def WF (fs : List File) : Bool := fs.all docBefore && samePkg fs
 
 def region (fs : List File) : String :=
-  if fs.isEmpty || !samePkg fs then "Out"
-  else if fs.all layoutOK then "WF"
-  else if fs.all strayOnly then "F_strayComment"
-  else "Out"
+  if fs.isEmpty || !WF fs then "Out" else "WF"
 
 end ShootVerif.Merge
